@@ -137,22 +137,27 @@ pub fn configs(tier: Tier) -> Vec<(Cfg, Plan)> {
     for pattern in PATTERNS {
         for variant in VARIANTS {
             for (gi, (two_nodes, objects, send)) in graphs(pattern, tier).into_iter().enumerate() {
-                // quick: the thread-safe ipc variant runs the first graph only
-                if tier == Tier::Quick && variant == Variant::IpcThreadsafe && gi > 0 {
+                // the thread-safe ipc variant runs the first graph only in quick, the first two in thorough
+                if variant == Variant::IpcThreadsafe && gi > if tier == Tier::Quick { 0 } else { 1 } {
                     continue;
                 }
-                // cost per execution: ipc ~50 ms CPU, local ~3 ms. Quick: ipc graphs have 5 objects (the
-                // 6-object graph minus the first service / node handle), thorough: 7 (the 8-object graph
-                // minus one node handle); the local variants run the full graphs.
+                // Cost per execution (CPU, loaded machine): local 5..30 ms, ipc 100..300 ms (request-response is
+                // the most expensive). The graphs are cut down to a maximal number of objects by dropping
+                // service / node handles at the end of new_sys (they are then not part of the permutation).
+                let max = match (tier, variant, pattern) {
+                    (Tier::Quick, Variant::Ipc | Variant::IpcThreadsafe, _) => 5,
+                    (Tier::Quick, _, _) => 6,
+                    (Tier::Thorough, Variant::Local, Pattern::ReqRes) => 7,
+                    (Tier::Thorough, Variant::Local, _) => 8,
+                    (Tier::Thorough, Variant::LocalThreadsafe, _) => 7,
+                    (Tier::Thorough, Variant::Ipc, Pattern::PubSub | Pattern::Event) => 7,
+                    (Tier::Thorough, Variant::Ipc, _) => 6,
+                    (Tier::Thorough, Variant::IpcThreadsafe, _) => 6,
+                };
                 let mut objects = objects;
-                if variant.is_ipc() && (objects.len() == 8 || tier == Tier::Quick) {
-                    let victim = [Obj::Svc0, Obj::Node1, Obj::Node0].into_iter().find(|o| objects.contains(o)).unwrap();
+                while objects.len() > max {
+                    let victim = [Obj::Svc0, Obj::Svc1, Obj::Node1, Obj::Node0].into_iter().find(|o| objects.contains(o)).unwrap();
                     objects.retain(|o| *o != victim);
-                    // the thread-safe ipc variant: 6 objects in thorough
-                    if variant == Variant::IpcThreadsafe && objects.len() == 7 {
-                        let victim = [Obj::Svc1, Obj::Node1, Obj::Node0].into_iter().find(|o| objects.contains(o)).unwrap();
-                        objects.retain(|o| *o != victim);
-                    }
                 }
                 let n = objects.len();
                 let split = match (variant.is_ipc(), n) {
